@@ -311,7 +311,7 @@ impl<T, Ptr: PointerFamily> MetaSlotMap<T, Ptr> {
 
     pub(crate) unsafe fn remove_impl(&mut self, key: SlotMapKey) -> Option<T> {
         self.verify_init("remove()");
-        if key.0 > self.idx_to_data.len() {
+        if key.0 >= self.idx_to_data.len() {
             return None;
         }
 
